@@ -353,20 +353,44 @@ func decodeKeyByBitmapUint16(d *structDecoder, buf []byte, cursor int64) (int64,
 	}
 }
 
+// decodeKeyNotFound scans ( and validates ) the rest of a key that matches no
+// field; cursor is at the byte that did not match.
 func decodeKeyNotFound(b unsafe.Pointer, cursor int64) (int64, *structFieldSet, error) {
+	if c := char(b, cursor); c < 0x20 && c != nul {
+		return 0, nil, errors.ErrInvalidCharacter(c, "string literal", cursor)
+	}
 	for {
 		cursor++
-		switch char(b, cursor) {
+		switch c := char(b, cursor); c {
 		case '"':
 			cursor++
 			return cursor, nil, nil
 		case '\\':
 			cursor++
-			if char(b, cursor) == nul {
+			switch char(b, cursor) {
+			case '"', '\\', '/', 'b', 'f', 'n', 'r', 't':
+			case 'u':
+				for i := 0; i < 4; i++ {
+					cursor++
+					h := char(b, cursor)
+					if !(('0' <= h && h <= '9') || ('a' <= h && h <= 'f') || ('A' <= h && h <= 'F')) {
+						if h == nul {
+							return 0, nil, errors.ErrUnexpectedEndOfJSON("string", cursor)
+						}
+						return 0, nil, errors.ErrInvalidCharacter(h, "\\u hexadecimal character escape", cursor)
+					}
+				}
+			case nul:
 				return 0, nil, errors.ErrUnexpectedEndOfJSON("string", cursor)
+			default:
+				return 0, nil, errors.ErrInvalidCharacter(char(b, cursor), "string escape code", cursor)
 			}
 		case nul:
 			return 0, nil, errors.ErrUnexpectedEndOfJSON("string", cursor)
+		default:
+			if c < 0x20 {
+				return 0, nil, errors.ErrInvalidCharacter(c, "string literal", cursor)
+			}
 		}
 	}
 }
